@@ -291,6 +291,15 @@ class Interp:
                 raise Unsupported("f-string part")
         return "".join(out)
 
+    def e_Lambda(self, n, env):
+        a = n.args
+        if a.vararg or a.kwarg or a.kwonlyargs or a.posonlyargs:
+            raise Unsupported("lambda with star parameters")
+        fn = ast.FunctionDef(name="<lambda>", args=a, body=[ast.Return(value=n.body)], decorator_list=[], returns=None, type_comment=None)
+        ast.copy_location(fn, n)
+        ast.copy_location(fn.body[0], n)
+        return Closure(fn, env)
+
     def e_NamedExpr(self, n, env):
         v = self.ev(n.value, env)
         self.bind(n.target, v, env)
@@ -308,6 +317,8 @@ class Interp:
         c = self.funcs.get(n.id)
         if c is not None and not isinstance(c, (ast.FunctionDef, ast.AsyncFunctionDef)):
             return self.ev(c, {})        # literal constant of the module (see module_env)
+        if isinstance(c, ast.FunctionDef):
+            return Closure(c, {})        # a module function handed over as a value (transform=_power_of_alpha)
         raise Unsupported("unbound name %s" % n.id)
 
     def e_Attribute(self, n, env):
